@@ -25,7 +25,7 @@ import traceback
 import zlib
 from concurrent.futures import ThreadPoolExecutor
 
-GEN_DEPS = []
+GEN_DEPS = ["AESCompressor.compress", "AESCompressor.flush", "AESDecompressor.decompress", "calculate_crc32"]
 LEVEL = "proof"
 TRUSTED_BASE = [
     "Coq 8.16.1 kernel, vm_compute (no native_compute); no axioms (Print Assumptions: closed)",
@@ -510,6 +510,88 @@ def corr_aes(ctx, rep, rng, n_cases):
     rep.extra["corr_aes_cases"] = n_cases
 
 
+def check_translation(ctx, rep, rng, n_cases):
+    """translation validation: the methods generated from the current py7zr/compressor.py (coq/gen/AesBuf.v, extracted, run
+    with Aes.v's toy CBC cipher) against real AESCompressor / AESDecompressor objects carrying ToyCipher, call by call
+    with the object state (bytes of buf.view, chaining value) compared after every call; calculate_crc32 generated from
+    py7zr/helpers.py (with Crc32.v's CRC in the place of zlib.crc32) against the Python; and the primitives (py7zr.io.Buffer
+    included) against CPython (harness/prims.py)"""
+    import vlib
+    import zlib
+    import py7zr.helpers as H
+    from harness import prims
+    model = ctx["model"]
+    if model is None or "gen_aes_compress" not in vlib.fn_table():
+        return
+    prims.check_prims(ctx, rep)
+    probe = model.call("gen_aes_flush", [[], [0] * 16])
+    if probe != [0, [[], [], [0] * 16]]:
+        return   # not the executable that contains the generated functions (its build failure is reported by verif.py)
+    cnt = 0
+    sizes = [0, 1, 2, 7, 15, 16, 17, 31, 32, 33, 47, 48, 64, 100]
+
+    def state(o):
+        return bytes(o.buf.view), bytes(o.cipher.c)
+
+    for case in range(n_cases):
+        iv = bytes(rng.randrange(256) for _ in range(16))
+        for side in ("compress", "decompress"):
+            obj = toy_aes_enc(iv, rng.choice([1, 16, 17, 64])) if side == "compress" else toy_aes_dec(iv, rng.choice([1, 16, 17, 64]))
+            nops = rng.randrange(1, 9)
+            for i in range(nops + 1):
+                flush = side == "compress" and (i == nops or rng.random() < 0.12)
+                d = b"" if (side == "decompress" and i == nops) else bytes(rng.randrange(256) for _ in range(rng.choice(sizes)))
+                buf0, c0 = state(obj)
+                ml = rng.choice([-1, 0, 16, 100])
+                if flush:
+                    g = model.call("gen_aes_flush", [list(buf0), list(c0)])
+                    call = "flush()"
+                elif side == "compress":
+                    g = model.call("gen_aes_compress", [list(buf0), list(c0), list(d)])
+                    call = "compress(%d bytes)" % len(d)
+                else:
+                    g = model.call("gen_aes_decompress", [list(buf0), list(c0), list(d), ml])
+                    call = "decompress(%d bytes, %d)" % (len(d), ml)
+                try:
+                    out = bytes(obj.flush() if flush else obj.compress(d) if side == "compress" else obj.decompress(d, ml))
+                    got = [0, [list(out), list(state(obj)[0]), list(state(obj)[1])]]
+                except ValueError:
+                    got = [1, 6]
+                cnt += 1
+                if g != got:
+                    rep.violation("the method translated from %s.%s disagrees with the Python on %s with %d bytes buffered: "
+                                  "generated %r, Python %r" % ("AESCompressor" if side == "compress" else "AESDecompressor", call.split("(")[0],
+                                                               call, len(buf0), _short_tree(g), _short_tree(got)),
+                                  {"kind": "translation", "side": side, "buf": buf0.hex(), "cst": c0.hex(), "data": d.hex(), "call": call},
+                                  concrete=False, match_keys={"kind": "translation", "side": side})
+                    return
+                if got[0] == 1:
+                    rep.dist("translation_aes_raises", side)
+                    break
+    for bs in (1, 2, 3, 16, 17, 1000):
+        for n in sorted(set([0, 1, bs - 1, bs, bs + 1, 2 * bs - 1, 2 * bs, 2 * bs + 1, 3 * bs + 2, rng.randrange(0, 6 * bs + 2)])):
+            if n < 0 or n > 4000:
+                continue
+            data = bytes(rng.randrange(256) for _ in range(n))
+            for v in (0, 1, 0xFFFFFFFF, rng.getrandbits(32)):
+                g = model.call("gen_calculate_crc32", [list(data), v, bs])
+                want = H.calculate_crc32(data, v, bs)
+                cnt += 1
+                if g != [0, want] or want != zlib.crc32(data, v):
+                    rep.violation("the function translated from helpers.calculate_crc32 disagrees with the Python on %d bytes, value "
+                                  "%d, blocksize %d: generated %r, Python %r, zlib %r" % (n, v, bs, g, want, zlib.crc32(data, v)),
+                                  {"kind": "translation", "side": "crc", "data": data.hex(), "value": v, "blocksize": bs},
+                                  concrete=False, match_keys={"kind": "translation", "side": "crc"})
+                    return
+    rep.extra["translation_validation_cases"] = cnt
+    rep.count(("translation", cnt), nontrivial=True, n=cnt)
+
+
+def _short_tree(t):
+    r = repr(t)
+    return r if len(r) < 300 else r[:300] + "..."
+
+
 def corr_unpacksizes(ctx, rep, rng, n_cases):
     import py7zr.compressor as C
     from harness import arch
@@ -980,7 +1062,7 @@ def run_session(spec):
     chains = all_chains()
     filters = chains[spec["chain"]]
     members = [(name, member_bytes(m)) for name, m in spec["members"]]
-    tmp = tempfile.mkdtemp(prefix="c01-")
+    tmp = tempfile.mkdtemp(prefix="s-", dir=spec.get("_tmp"))   # inside the parent's scratch root: removed even if this child dies
     info = {"packsize": None}
     try:
         with _Patched(spec["block"], spec["limit"]):
@@ -1152,7 +1234,17 @@ def run_specs(specs, per_batch, timeout_one=200, unexplained=None, stop_after=40
     outside the listed findings: after `stop_after` of those no further batches are started (the verdict is settled;
     a tree on which every second extraction spins would otherwise take hours)."""
     from harness.sandbox import run_sandboxed
-    batches = [specs[i:i + per_batch] for i in range(0, len(specs), per_batch)]
+    root = tempfile.mkdtemp(prefix="c01-")
+    try:
+        return _run_specs(run_sandboxed, [dict(s, _tmp=root) for s in specs], specs, per_batch, unexplained, stop_after)
+    finally:
+        shutil.rmtree(root, ignore_errors=True)
+
+
+def _run_specs(run_sandboxed, tspecs, specs, per_batch, unexplained, stop_after):
+    """tspecs = specs with the scratch root added (what the children get); results are paired with the plain specs"""
+    plain = {id(t): s for t, s in zip(tspecs, specs)}
+    batches = [tspecs[i:i + per_batch] for i in range(0, len(tspecs), per_batch)]
     state = {"bad": 0, "skipped": 0}
 
     def single(s, limit):
@@ -1171,6 +1263,7 @@ def run_specs(specs, per_batch, timeout_one=200, unexplained=None, stop_after=40
             out = [(s, r if r.get("stage") != "spin" else single(s, 150)) for s, r in zip(batch, res["value"])]
         else:
             out = [(s, single(s, 150)) for s in batch]
+        out = [(plain[id(s)], r) for s, r in out]
         if unexplained is not None:
             state["bad"] += sum(1 for s, r in out if r["status"] != "ok" and unexplained(s, r))
         return out
@@ -1350,7 +1443,7 @@ def run(ctx):
                        "some member/packed stream non-empty; distinct by the whole case description")
     q = tier == "quick"
     if ctx["model"] is not None:
-        for part, n in ((corr_crc, 60 if q else 400), (corr_aes, 1500 if q else 20000), (corr_decompress, 3000 if q else 40000),
+        for part, n in ((check_translation, 400 if q else 5000), (corr_crc, 60 if q else 400), (corr_aes, 1500 if q else 20000), (corr_decompress, 3000 if q else 40000),
                         (corr_worker, 1500 if q else 20000), (corr_compress, 2000 if q else 30000), (corr_unpacksizes, 300 if q else 3000)):
             try:
                 part(ctx, rep, rng, n)
